@@ -30,6 +30,7 @@ DEFAULT_PROFILE = dict(
     vfuncs=(0, 5), p_index=0.35, impl_fns=(0, 3), args=(0, 4), p_forward=0.5,
     p_zero_array=0.05, p_ptr=0.25, p_array=0.2, p_user_field=0.35, p_cc=0.25, p_ret=0.5,
     max_depth=3, p_int_forms=0.5,
+    p_vfunc_no_self=0.12,    # virtual functions declared without receiver (their wrapper does not compile: F21)
     packed_clone=False,      # `#[packed, cloneable]` (rustc accepts it only when every field is Copy)
 )
 
@@ -183,7 +184,7 @@ class Gen:
         if self.chance("p_cc"):
             cc = rng.choice(CCS)
             attrs.append('calling_convention("%s")' % cc)
-        has_self = force_self if force_self is not None else ((rng.random() < 0.88) if vfunc else rng.random() < 0.7)
+        has_self = force_self if force_self is not None else ((rng.random() >= self.p.get("p_vfunc_no_self", 0.12)) if vfunc else rng.random() < 0.7)
         args = []
         selfkind = None
         if has_self:
